@@ -111,4 +111,49 @@ theorem nodup_keys_overlay {β} (l acc : List (String × β)) (h : (keys acc).No
     simp only [overlay, List.foldl_cons]
     exact ih _ (nodup_keys_assocSet _ _ _ h)
 
+theorem mem_keys_assocSet {β} (k k' : String) (v : β) (l : List (String × β)) :
+    k ∈ keys (assocSet k' v l) ↔ k = k' ∨ k ∈ keys l := by
+  rw [keys_assocSet]
+  split
+  · rename_i h
+    constructor
+    · exact Or.inr
+    · rintro (e | e)
+      · subst e; exact h
+      · exact e
+  · simp [or_comm]
+
+theorem mem_keys_overlay {β} (k : String) (l acc : List (String × β)) (h : k ∈ keys (overlay l acc)) :
+    k ∈ keys l ∨ k ∈ keys acc := by
+  induction l generalizing acc with
+  | nil => exact Or.inr h
+  | cons x xs ih =>
+    simp only [overlay, List.foldl_cons] at h
+    rcases ih _ h with h | h
+    · exact Or.inl (by simp only [keys, List.map_cons, List.mem_cons]; exact Or.inr h)
+    · rcases (mem_keys_assocSet _ _ _ _).mp h with h | h
+      · exact Or.inl (by simp only [keys, List.map_cons, List.mem_cons]; exact Or.inl h)
+      · exact Or.inr h
+
+theorem assocGet_isSome_iff_mem_keys {β} (k : String) (l : List (String × β)) : (assocGet k l).isSome ↔ k ∈ keys l := by
+  induction l with
+  | nil => simp [assocGet, keys]
+  | cons x xs ih =>
+    obtain ⟨k', v'⟩ := x
+    by_cases h : k' = k
+    · subst h; simp [assocGet, keys]
+    · have h' : ¬ k = k' := fun e => h e.symm
+      simp only [assocGet, h, if_false, keys, List.map_cons, List.mem_cons, h', false_or]
+      exact ih
+
+theorem assocGet_map_val {β γ} (k : String) (f : β → γ) (l : List (String × β)) :
+    assocGet k (l.map (fun kv => (kv.1, f kv.2))) = (assocGet k l).map f := by
+  induction l with
+  | nil => rfl
+  | cons x xs ih =>
+    obtain ⟨k', v'⟩ := x
+    by_cases h : k' = k
+    · simp [assocGet, h]
+    · simp [assocGet, h, ih]
+
 end BlueskyVerif.Engine
